@@ -414,7 +414,11 @@ func genValue(r *rng, t reflect.Type, o genOpts) string {
 			return "n"
 		}
 		if t.NumMethod() > 0 {
-			ct := []reflect.Type{reflect.TypeOf(Circle{}), reflect.TypeOf(Square{})}[r.intn(2)]
+			ct := []reflect.Type{reflect.TypeOf(Circle{}), reflect.TypeOf(Square{}), reflect.TypeOf(Blob{})}[r.intn(3)]
+			if !o.roundtrip && r.chance(1, 8) {
+				// a member held by pointer (nil or not) is not a member
+				ct = reflect.TypeOf((*Circle)(nil))
+			}
 			return fmt.Sprintf("I%d:%s", tid(ct), genValue(r, ct, d))
 		}
 		cs := ifaceChoices(o.jsonSafe)
@@ -430,7 +434,7 @@ func genValue(r *rng, t reflect.Type, o genOpts) string {
 				cs = append(cs, reflect.TypeOf(TrBytes{}))
 			}
 			if o.tagged && o.cbor {
-				cs = append(cs, reflect.TypeOf(Inner{}), reflect.TypeOf(TrNum(0)), reflect.TypeOf(TrBytes{}), reflect.TypeOf(TrSq{}), reflect.TypeOf(TrOpt{}), reflect.TypeOf(TrW{}), reflect.TypeOf(TrN{}), reflect.TypeOf(Digest{}), reflect.TypeOf(TwoMaps{}))
+				cs = append(cs, reflect.TypeOf(Inner{}), reflect.TypeOf(TrNum(0)), reflect.TypeOf(TrBytes{}), reflect.TypeOf(TrSq{}), reflect.TypeOf(TrOpt{}), reflect.TypeOf(TrW{}), reflect.TypeOf(TrN{}), reflect.TypeOf(Digest{}), reflect.TypeOf(TwoMaps{}), reflect.TypeOf(Blob{}), reflect.TypeOf(Blob{}))
 			}
 		}
 		ct := cs[r.intn(len(cs))]
